@@ -87,6 +87,12 @@ class MapContract(LibModel):
             return [(st, ZV(Z.callv(f.t, Z.call_args(self.n)), 'val'))]
         return super().call(eng, st, f, args, kwargs, node)
 
+    def obj_truth(self, eng, st, v):
+        if v.kind == 'argpack':
+            f = n_args if v.data['kind'] == 'args' else n_kwargs
+            return f(v.data['of']) > 0
+        return None
+
     def accepts_star(self, f):
         return isinstance(f, ZV) and f.ty == 'val'
 
